@@ -65,9 +65,9 @@ let render = function
   | XT (TOpDel id) -> Printf.sprintf "opdel C %s" (n id)
   | XT (TCall (f, x)) -> Printf.sprintf "call %s %s" (str_fn f) (i x)
   | XT (TPred (p, x)) -> Printf.sprintf "pred %s %s" (str_pred p) (i x)
-  | XT (TFeed (a, x)) -> Printf.sprintf "feed %s %s" (i a) (i x)
   | XT TFire -> "fire"
   | XT (TUaf k) -> "uaf " ^ n k
+  | XFeed (a, x) -> Printf.sprintf "feed %s %s" (i a) (i x)
   | XRoot o -> "root " ^ str_out o
   | XSkip -> "skip"
 let outcome_of t c =
